@@ -268,7 +268,9 @@ PROPS['C09'] = dict(
     rule='recording policies (built-in, slowly growing, table-driven, refusing); request log compared exactly with the model '
          'and checked: chain of capacities, buffer-limit iff refused, request only when the record being parsed does not fit; '
          'the built-in policies asked directly with capacities around their thresholds and limits (0..3, t-2..t+2, l-t-2..l+2, 2^23 +- 2, 2^40) '
-         'and compared with the model and with the documented arithmetic; readers opened from a file path (default and explicit '
+         'and compared with the model and with the documented arithmetic; readers with buffers of 64 KiB .. 1 MiB over one long record '
+         '(Q cases with four arguments): the chain of requests compared with the model and checked (each request passes exactly the size '
+         'answered last); readers opened from a file path (default and explicit '
          'capacity, files with a single record among them) with a recording policy set on them',
     assumptions=ASSUME_READER,
 )
